@@ -5,9 +5,11 @@ set -u
 cd /verif
 id=${1:?property id}
 tier=${2:-${VERIF_TIER:-quick}}
-if ! out=$(./build.sh 2>&1); then
+bin=vmc
+case "$id" in C12|C16) bin=vmcx;; esac
+if ! out=$(./build.sh $bin 2>&1); then
   echo "$out"
   echo "BUILD FAILED: the checker could not be built against /repo's working tree"
   exit 2
 fi
-exec ./build/vmc check "$id" "$tier"
+exec ./build/$bin check "$id" "$tier"
